@@ -1,4 +1,4 @@
-import StepupModel.K.Dump
+import StepupModel.K.Request
 /-! Driver requests of the kernel model (`k <op> ...`); the only stateful part of the driver. -/
 open StepupModel StepupModel.Proto StepupModel.K
 
@@ -66,7 +66,50 @@ def finish (sess : Session) (r : M (KState × String)) : Session × String :=
   | .error e => ({ sess with lastErr := (match e with | .graph m => m | _ => e.name) },
       s!"err {e.name} {sess.st.digest}")
 
-def unit (r : M KState) : M (KState × String) := do pure (← r, "-")
+/-- Parse one `k <op> ...` line into a kernel request. -/
+def parseReq : List String → Option Req
+  | ["define", creator, cmd, wd, inp, env, out, vol, need, shell, safe, res, ovr] => do
+    let d : StepDecl := { cmd := ← unhex cmd, workdir := ← unhex wd, inp := ← unhexList inp, env := ← unhexList env,
+                          out := ← unhexList out, vol := ← unhexList vol, need := ← parseNeed need,
+                          shell := shell = "1", safe := safe = "1", resources := ← parseUnits res,
+                          overrides := ← parsePairs ovr }
+    pure (.define (← parseKey creator) d)
+  | ["amend", step, inp, env, out, vol, conc] => do
+    pure (.amend (← parseKey step) (← unhexList inp) (← unhexList env) (← unhexList out) (← unhexList vol)
+      (← parseKeys conc))
+  | ["static", creator, paths] => do pure (.static (← parseKey creator) (← unhexList paths))
+  | ["tree", creator, path] => do pure (.tree (← parseKey creator) (← unhex path))
+  | ["declstatic", creator, trees, files, patterns] => do
+    pure (.declStatic (← parseKey creator) (← unhexList trees) (← unhexList files) (← parsePatterns patterns))
+  | ["nglob", step, pattern, found] => do pure (.nglob (← parseKey step) (← unhex pattern) (← unhexList found))
+  | ["hashes", cause, upd] => do
+    let c ← parseCause cause
+    pure (.hashes (← parseHashes upd) c)
+  | ["pop", choice] => do
+    pure (.pop (← if choice = "~" then some none else (parseKey choice).map some))
+  | ["update_meta"] => some .updateMeta
+  | ["reset_rerun", step] => do pure (.resetRerun (← parseKey step))
+  | ["completed", step, h, defer] => do
+    let k ← parseKey step
+    pure (.completed k (← if h = "~" then some none else h.toNat?.map some) (defer = "1"))
+  | ["set_state", step, state] => do
+    let k ← parseKey step
+    let stt ← match state with
+      | "PENDING" => some StepState.pending | "RUNNING" => some .running | "SUCCEEDED" => some .succeeded
+      | "FAILED" => some .failed | "CHECKING" => some .checking | _ => none
+    pure (.setState k stt)
+  | ["delete_hash", step] => do pure (.deleteHash (← parseKey step))
+  | ["mark_pending", step] => do pure (.markPending (← parseKey step))
+  | ["hold", step] => do pure (.hold (← parseKey step))
+  | ["release", step] => do pure (.release (← parseKey step))
+  | ["detach", key] => do pure (.detach (← parseKey key))
+  | ["revert_optional"] => some .revertOptional
+  | ["delete_detached"] => some .deleteDetached
+  | ["clear_queue"] => some .clearQueue
+  | ["reset_interrupted"] => some .resetInterrupted
+  | ["rescan_env"] => some .rescanEnv
+  | ["reconcile"] => some .reconcile
+  | _ => none
 
 def handle (sess : Session) : List String → Option (Session × String)
   | ["reset", cap, targets, dirs, avail, env] => do
@@ -76,97 +119,10 @@ def handle (sess : Session) : List String → Option (Session × String)
     pure (sess, s!"ok - {sess.st.digest}")
   | ["setenv", env] => do
     pure ({ sess with cfg := { sess.cfg with env := ← parsePairs env } }, s!"ok - {sess.st.digest}")
-  | ["define", creator, cmd, wd, inp, env, out, vol, need, shell, safe, res, ovr] => do
-    let d : StepDecl := { cmd := ← unhex cmd, workdir := ← unhex wd, inp := ← unhexList inp, env := ← unhexList env,
-                          out := ← unhexList out, vol := ← unhexList vol, need := ← parseNeed need,
-                          shell := shell = "1", safe := safe = "1", resources := ← parseUnits res,
-                          overrides := ← parsePairs ovr }
-    let c ← parseKey creator
-    pure <| finish sess do
-      let (st, chk) ← sess.st.defineStep sess.cfg c d
-      pure (st, hexList chk)
-  | ["amend", step, inp, env, out, vol, conc] => do
-    let k ← parseKey step
-    let inp ← unhexList inp; let env ← unhexList env; let out ← unhexList out; let vol ← unhexList vol
-    let conc ← parseKeys conc
-    pure <| finish sess do
-      let (st, r) ← sess.st.amendStep sess.cfg k inp env out vol conc
-      pure (st, s!"{hexList r.unavailable}|{hexList r.unfresh}|{hexList r.toCheck}")
-  | ["static", creator, paths] => do
-    let c ← parseKey creator
-    let ps ← unhexList paths
-    pure <| finish sess do
-      let (st, chk) ← sess.st.declareStaticFiles sess.cfg c ps
-      pure (st, hexList (sortedStrs chk))
-  | ["tree", creator, path] => do
-    let c ← parseKey creator
-    let p ← unhex path
-    pure <| finish sess do
-      let (st, chk) ← sess.st.registerStaticTree sess.cfg c p
-      pure (st, hexList (sortedStrs chk))
-  | ["declstatic", creator, trees, files, patterns] => do
-    let c ← parseKey creator
-    let ts ← unhexList trees
-    let fs ← unhexList files
-    let ps ← parsePatterns patterns
-    pure <| finish sess do
-      let (st, chk) ← sess.st.declareStaticRequest sess.cfg c ts fs ps
-      pure (st, hexList (sortedStrs (dedupSorted (sortedStrs chk))))
-  | ["nglob", step, pattern, found] => do
-    let k ← parseKey step
-    let p ← unhex pattern
-    let ms ← unhexList found
-    pure <| finish sess (unit (sess.st.registerNglob k p ms))
-  | ["hashes", cause, upd] => do
-    let c ← parseCause cause
-    let u ← parseHashes upd
-    pure <| finish sess (unit (sess.st.updateFileHashes u c))
-  | ["pop", choice] => do
-    let c ← if choice = "~" then some none else (parseKey choice).map some
-    pure <| finish sess do
-      let (st, d) ← sess.st.popNext sess.cfg c
-      pure (st, match d with
-        | .none => "none"
-        | .job k chk run => s!"{k.enc}:{if chk then "check" else "run"}:{if run then "runjob" else "validate"}")
-  | ["update_meta"] => pure <| finish sess (unit (sess.st.updateMeta sess.cfg))
-  | ["reset_rerun", step] => do
-    let k ← parseKey step
-    pure <| finish sess (unit (sess.st.resetForRerun k))
-  | ["completed", step, h, defer] => do
-    let k ← parseKey step
-    let h ← if h = "~" then some none else h.toNat?.map some
-    pure <| finish sess do
-      let (st, intr) ← sess.st.markCompleted sess.cfg k h (defer = "1")
-      pure (st, b01 intr)
-  | ["set_state", step, state] => do
-    let k ← parseKey step
-    let stt ← match state with
-      | "PENDING" => some StepState.pending | "RUNNING" => some .running | "SUCCEEDED" => some .succeeded
-      | "FAILED" => some .failed | "CHECKING" => some .checking | _ => none
-    pure <| finish sess (unit (sess.st.setStepState k stt))
-  | ["delete_hash", step] => do
-    let k ← parseKey step
-    pure <| finish sess (unit (pure (sess.st.deleteHash k)))
-  | ["mark_pending", step] => do
-    let k ← parseKey step
-    pure <| finish sess (unit (sess.st.markStepPending k))
-  | ["hold", step] => do
-    let k ← parseKey step
-    pure <| finish sess (unit (sess.st.hold k))
-  | ["release", step] => do
-    let k ← parseKey step
-    pure <| finish sess (unit (sess.st.release k))
-  | ["detach", key] => do
-    let k ← parseKey key
-    pure <| finish sess (unit (sess.st.detach k))
-  | ["revert_optional"] => pure <| finish sess (unit sess.st.revertOptional)
-  | ["delete_detached"] => pure <| finish sess (unit sess.st.deleteDetached)
-  | ["clear_queue"] => pure <| finish sess (unit (pure { sess.st with toBeDeleted := [] }))
-  | ["reset_interrupted"] => pure <| finish sess (unit sess.st.resetInterrupted)
-  | ["rescan_env"] => pure <| finish sess (unit (sess.st.rescanEnvVars sess.cfg))
-  | ["reconcile"] => pure <| finish sess (unit (sess.st.reconcileTargets sess.cfg))
   | ["dump"] => pure (sess, "|".intercalate sess.st.dumpLines)
   | ["lasterr"] => pure (sess, sess.lastErr)
-  | _ => none
+  | toks => do
+    let req ← parseReq toks
+    pure (finish sess (sess.st.exec sess.cfg req))
 
 end StepupModel.Drv.K
